@@ -4,6 +4,7 @@ import Driver.C17
 import Driver.C18
 import Driver.C19
 import Driver.C08
+import Driver.C16
 
 def main (args : List String) : IO UInt32 :=
   match args with
@@ -13,4 +14,5 @@ def main (args : List String) : IO UInt32 :=
   | ["c18"] => Driver.C18.main
   | ["c19"] => Driver.C19.main
   | ["c08"] => Driver.C08.main
+  | ["c16"] => Driver.C16.main
   | _ => do IO.eprintln "usage: nridrv <property>"; return 2
